@@ -20,6 +20,8 @@ func init() {
 			{"C07.R4", "q", "truncate only to the write head; Truncate(0) removes", c07r4},
 			{"C09.R4", "q", "shared: block size agreement", c09r4},
 			{"C07.R6", "q", "recovery replays in ascending (chunk, split) order", c07r6},
+			{"C17.R4", "q", "shared: destination is the range start or the nearest earlier file", c17r4},
+			{"C14.R7", "q", "shared: a split's data size covers only accepted records", c14r7},
 			{"C18.R4", "q", "shared: truncate on all exits", c18r4},
 			{"C18.R2", "q", "shared: keep table (tombstone reservation)", c18r2},
 		},
